@@ -42,7 +42,7 @@ claimed.update({
                      "a CDS request is followed by an EDS push (delta) / the EDS re-request after CDS is answered exactly once (SotW), and the exchange ends silent (no loop).",
                 note="Outside: initConnection ordering, IsServerReady gate, WDS content versions, generator content.", ref="§4 C05"),
     "C06": dict(text="Cache token/invalidation protocol of the real lruCache (Add/Get/Clear/ClearAll/Flush + LRU eviction) as a bounded model check with symbolic push-start and invalidation instants: a hit is never older than an invalidation of one of its dependencies, "
-                     "every stored entry stays indexed under every dependency; CDS cache key: every scalar field and every list field (DR from-list, EnvoyFilter keys, service accounts) changes the key stream unambiguously.",
+                     "every stored entry stays indexed under every dependency; CDS, RDS and EDS cache keys (clusterCache.Key, route.Cache.Key, EndpointBuilder.WriteHash): every field and every list field changes the key stream unambiguously.",
                 note="Outside: inputs read by generators but absent from the entry struct; byte-equality of cached vs fresh protobuf; xxhash collisions.", ref="§4 C06"),
     "C09": dict(text="CreateCertificate binds SANs to exactly the authenticated identities (or the single impersonated identity after the node authorizer accepted it), never to CSR text or other metadata, ForCA is never set, "
                      "unauthenticated callers never reach the signer; the per-cluster impersonation gate accepts only trusted callers whose pod exists with matching UID/SA and only identities running on the caller's node; "
